@@ -163,15 +163,13 @@ Proof.
 Qed.
 
 (* every comment of the source is in [norm c ts] exactly once - as a multiset of texts when the
-   declarations are sorted (inside a declaration the order is kept: [join_texts]) - except the
-   own-line comments after the last token *)
+   declarations are sorted (inside a declaration the order is kept: [join_texts]) *)
 Theorem norm_comments_perm c ts :
-  Permutation (map ctx (comments (norm c ts)) ++ map ctx (unprinted c ts))
-              (map ctx (map (restyle c) (comments ts))).
+  Permutation (map ctx (comments (norm c ts))) (map ctx (map (restyle c) (comments ts))).
 Proof.
   destruct (sort_declaration c) eqn:Hs.
-  2:{ rewrite <- (norm_comments c ts Hs), map_app. reflexivity. }
-  unfold norm, unprinted, norm_items.
+  2:{ rewrite <- (norm_comments c ts Hs). reflexivity. }
+  unfold norm, norm_items.
   destruct (to_items [] ts) as [its tail] eqn:Et.
   destruct (run c st0 [] (map (restyle_item c) its)) as [out tl1] eqn:Er.
   pose proof (keep_tail_app out (tl1 ++ map (restyle c) tail)) as Hsp.
@@ -182,12 +180,12 @@ Proof.
   { rewrite Hsp, app_assoc, Er, <- map_app, Et. reflexivity. }
   destruct (chunks 0 [] out) as [gs r0] eqn:Ec.
   destruct r0 as [|x r0].
-  2:{ rewrite comments_of_items, <- Hall. simpl snd. rewrite <- map_app, <- app_assoc. reflexivity. }
+  2:{ rewrite comments_of_items, <- Hall. reflexivity. }
   rewrite Hs.
   pose proof (chunks_concat _ _ _ _ _ Ec) as Hcc. simpl in Hcc. rewrite app_nil_r in Hcc.
   pose proof (chunks_nonempty _ _ _ _ _ Ec) as Hne.
   destruct gs as [|g0 gs'].
-  { simpl in Hcc. subst out. simpl in Es. inversion Es; subst. simpl. rewrite <- Hall. reflexivity. }
+  { simpl in Hcc. subst out. simpl in Es. inversion Es; subst. simpl. rewrite comments_of_items, <- Hall. reflexivity. }
   set (G := detach (g0 :: gs') tr).
   assert (HG : Forall (fun g => g_items g <> []) G) by now apply detach_nonempty.
   assert (HGs : Forall (fun g => g_items g <> []) (sort_groups G)).
@@ -196,7 +194,7 @@ Proof.
   pose proof (join_texts G [] false HG) as H2.
   unfold G in H2 at 1 2. rewrite join_detach in H2 by (auto; discriminate). simpl in H1, H2.
   destruct (join_groups [] true (sort_groups G)) as [o t2]. simpl in H1.
-  rewrite comments_of_items, H1. rewrite <- Hall. rewrite !map_app, app_assoc.
-  simpl snd. apply Permutation_app_tail. rewrite <- map_app, <- Hcc. simpl concat. rewrite H2.
+  rewrite comments_of_items, app_assoc, map_app, H1. rewrite <- Hall. rewrite app_assoc, (map_app _ _ rest).
+  apply Permutation_app_tail. rewrite <- Hcc. simpl concat. rewrite H2.
   apply concat_map_perm. apply sort_groups_perm.
 Qed.
